@@ -3227,6 +3227,14 @@ class StateEngine(object):
                                      str(min(end + max_concurrency, len(result))),
                         }
 
+                        """
+                        Restore the retry info of the Map state itself. Any
+                        retry info left in the context by the Iterator state
+                        that triggered collect_results belongs to that state
+                        and must not be inherited by the Map state.
+                        """
+                        context_state.pop("RetryCount", None)
+                        context_state.pop("RetryTimeout", None)
                         if retry_count:
                             context_state["RetryCount"] = retry_count
                         if retry_timeout:
@@ -3267,6 +3275,14 @@ class StateEngine(object):
                 """
                 event["data"] = data
 
+                """
+                Restore the retry info of the Map or Parallel state itself. Any
+                retry info left in the context by the failed Branch state (e.g.
+                a Task that exhausted its own retries) belongs to that state and
+                must not count against the Map or Parallel state's retriers.
+                """
+                context_state.pop("RetryCount", None)
+                context_state.pop("RetryTimeout", None)
                 if retry_count:
                     context_state["RetryCount"] = retry_count
                 if retry_timeout:
